@@ -289,7 +289,8 @@ pub assume_specification<T, U>[Option::<T>::and::<U>](a: Option<T>, b: Option<U>
         lm_inv(n0, *self, q@), bfs_inv(n0, q@, qi - 1, ps), self.states@[state_id as int].fail == sf,
         2 <= child_id < n0.states@.len(), nfa_depth(n0, child_id as int) == nfa_depth(n0, state_id as int) + 1,
         0 <= fail_id < n0.states@.len(), fail_id != 1, nfa_depth(n0, fail_id as int) < nfa_depth(n0, state_id as int),
-        fail_id == 0 || in_q(q@, fail_id as int),
+        fail_id == 0 || in_q(q@, fail_id as int), is_suffix(path(n0, fail_id as int), path(n0, state_id as int)),
+        nfa_edges(n0, state_id as int).contains_key(c), nfa_edges(n0, state_id as int)[c] == child_id,
     ensures link_ok(n0, child_id as int, new_fail_id as int),
     decreases nfa_depth(n0, fail_id as int),
 //@}
@@ -297,11 +298,13 @@ pub assume_specification<T, U>[Option::<T>::and::<U>](a: Option<T>, b: Option<U>
     proof {
         lemma_lm_frame(n0, *self, q@);
         let f = fail_id as int;
-        if nfa_edges(n0, f).contains_key(c) { lemma_path_child(n0, f, c); }
+        lemma_link_root(n0, child_id as int);
+        if nfa_edges(n0, f).contains_key(c) { lemma_path_child(n0, f, c); lemma_link_child(n0, state_id as int, f, c); }
         if f != 0 {
             lemma_lm_get(n0, *self, q@, f);
             let g = self.states@[f].fail as int;
             if g >= 2 { lemma_shallow_in_q(n0, q@, qi - 1, ps, g); }
+            if g != 1 { lemma_link_trans(n0, state_id as int, f, g); }
         }
     }
 //@}
@@ -334,6 +337,7 @@ pub assume_specification<T, U>[Option::<T>::and::<U>](a: Option<T>, b: Option<U>
         assert(pctx(n0)) by { reveal(pctx); }
         assert(octx(n0, q@)) by { reveal(octx); }
         lemma_outs_start(n0, q@);
+        lemma_outs_sound_start(n0, q@);
         lemma_octx_entry(n0, q@, 0);
     }
 //@}
@@ -341,7 +345,7 @@ pub assume_specification<T, U>[Option::<T>::and::<U>](a: Option<T>, b: Option<U>
 //@loop 1{
     invariant octx(n0, q@), 0 <= it1.index@ <= q@.len(),
         it1.snapshot@.remaining().len() == q@.len(), forall|i: int| 0 <= i < q@.len() ==> *(#[trigger] it1.snapshot@.remaining()[i]) == q@[i],
-        outs_inv(n0, *self, q@, it1.index@ as int),
+        outs_inv(n0, *self, q@, it1.index@ as int), outs_sound(n0, *self, q@, it1.index@ as int),
         ac_fail(n0) ==> outs_ac(n0, *self, q@, it1.index@ as int),
 //@}
 //@loopbody 1{
@@ -358,12 +362,13 @@ pub assume_specification<T, U>[Option::<T>::and::<U>](a: Option<T>, b: Option<U>
         // guarded: if the step is not the expected one the loop invariant (not this hint) is what fails
         if outs_step_rel(n0, b0, *self, q@, i0) {
             lemma_outs_step(n0, b0, *self, q@, i0);
+            lemma_outs_sound_step(n0, b0, *self, q@, i0);
             if ac_fail(n0) { lemma_outs_ac_step(n0, b0, *self, q@, i0); }
         }
     }
 //@}
 //@after 1 for verif_ref1{
-    proof { lemma_outs_finish(n0, *self, q@); }
+    proof { lemma_outs_finish(n0, *self, q@); lemma_outs_sound_finish(n0, *self, q@); }
 //@}
 //@endimpl
 
